@@ -235,7 +235,7 @@ def additivity_case(draw):
     "C09",
     "additivity",
     additivity_case,
-    quick=260,
+    quick=500,
     thorough=6000,
     tol="ulp32: max|P(AuB)-P(A)-P(B)| <= 1e-4*max|P(AuB)| (observed <= 5e-6)",
     rule="both atom sets non-empty",
@@ -318,7 +318,7 @@ def independence_case(draw):
     "C09",
     "slice_independence",
     independence_case,
-    quick=500,
+    quick=1000,
     thorough=10000,
     tol="ulp32: max|proj1-proj2| <= 2e-5*max|proj| (observed <= 2e-6)",
     rule="the two slicings have different edge sets",
@@ -392,7 +392,7 @@ def _check_partition(per_slice_tags, n_atoms, zs, th, cz, ctx, where, wrap, snap
     "C09",
     "slice_assignment",
     assignment_case,
-    quick=500,
+    quick=1000,
     thorough=10000,
     tol="exact index sets; f64 1e-9 thickness sum; slice means 2e-5 of the total mean",
     rule=">=1 atom exactly on an interior slice edge (sharp decision)",
@@ -459,7 +459,7 @@ def direct_case(draw):
     "C09",
     "sliced_atoms_direct",
     direct_case,
-    quick=1500,
+    quick=3000,
     thorough=30000,
     tol="exact index sets; f64 1e-9 thickness sum",
     rule=">=1 atom exactly on an interior slice edge (sharp decision)",
@@ -542,7 +542,7 @@ def thickness_case(draw):
     "C09",
     "thickness_sum",
     thickness_case,
-    quick=1500,
+    quick=3000,
     thorough=30000,
     tol="f64: |sum - cell_z| <= 1e-9*cell_z; explicit sequences exact",
     rule="valid request resulting in >=2 slices",
